@@ -23,6 +23,15 @@ from .tracer import TracingEnvironment, Projector, row_view, log_view, task_key 
 _POLICIES = {}
 
 
+def _frac(cfg, i):
+    """fractional part added to the i-th observation's data rate in the file
+    (|frac| < 1/2, so the parsed per-step rate is the configured integer)"""
+    if not cfg.get("fracRate"):
+        return 0.0
+    f = (0.3, 0.2, -0.3, 0.4)[i % 4]
+    return abs(f) if cfg["obs"][i]["rate"] == 0 else f
+
+
 def write_workflow(path, wf):
     g = {"directed": True, "multigraph": False, "graph": {},
          "nodes": [], "edges": []}
@@ -66,7 +75,9 @@ def materialise(cfg, d):
         observations.append({"name": ob["o"], "start": start // K,
                              "duration": ob["dur"] * mult,
                              "instrument_demand": ob["demand"],
-                             "data_product_rate": ob["rate"] / mult})
+                             # the parser rounds rate x unit to whole data units per step:
+                             # a configuration may spell the rate with a fraction
+                             "data_product_rate": (ob["rate"] + _frac(cfg, len(observations))) / mult})
     conf = {
         "instrument": {"telescope": {"total_arrays": cfg["arrays"],
                                      "max_ingest_resources": cfg["maxIngest"],
